@@ -26,4 +26,8 @@ def fromUtf8 (rf : Refuse) (hp : Heap) (b : Bytes) : Except Unit (Option Handle 
 def lossyText (b : Bytes) : Bytes :=
   (utf8Chunks b).flatMap fun (v, i) => if i.isEmpty then v else v ++ replacement
 
+/-- text produced by `from_utf16_lossy`, by definition of its pipeline -/
+def lossy16Text (u : List Nat) : Bytes :=
+  ((decodeUtf16 u).map fun o => o.getD replacement).flatten
+
 end LS
